@@ -25,10 +25,6 @@ theorem step_conn (st st' : St) (it : RawItem) (h : step st it = .ok st') (hi : 
     | error e => simp [h1] at h
     | ok t =>
       simp only [h1] at h
-      by_cases hcc : "AtomLabel" ∈ st.names
-      · simp only [List.contains_iff_mem, hcc, if_true, throw, throwThe, MonadExceptOf.throw] at h
-        cases h
-      simp only [List.contains_iff_mem, hcc, if_false] at h
       cases h2 : lookup (st.names ++ [l]) l2 with
       | error e => simp [h2] at h
       | ok j =>
